@@ -16,6 +16,7 @@ limitations under the License.
 package util
 
 import (
+	"fmt"
 	"log/slog"
 	"strings"
 
@@ -243,8 +244,11 @@ func processImportValues(c *chart.Chart, merge bool) error {
 		for _, riv := range r.ImportValues {
 			switch iv := riv.(type) {
 			case map[string]interface{}:
-				child := iv["child"].(string)
-				parent := iv["parent"].(string)
+				child, cok := iv["child"].(string)
+				parent, pok := iv["parent"].(string)
+				if !cok || !pok {
+					return fmt.Errorf("invalid import-values entry for dependency %q of chart %q: child and parent must be strings", r.Name, c.Name())
+				}
 
 				outiv = append(outiv, map[string]string{
 					"child":  child,
